@@ -330,6 +330,10 @@ impl Decoder {
         };
         if level <= 4 {
             let key_size = key_bits as usize / 8;
+            if key_size == 0 {
+                // RC4 cannot be keyed with an empty key (`Rc4::new` asserts)
+                err!(other!("invalid key length {}", key_bits));
+            }
             let key = key_derivation_user_password_rc4(level, key_size, dict, id, pass);
 
             if check_password_rc4(level, dict.u.as_bytes(), id, &key[..std::cmp::min(key_size, 16)]) {
